@@ -12,8 +12,7 @@ import (
 
 // C20: the charset/collation tables of mysql/charset.go that SetCharset and
 // the SET NAMES handling consult, the verify-function table of
-// mysql/variables.go that SessionVariables.Set and Reset consult, and the two
-// structural facts the repaired code relies on.
+// mysql/variables.go that SessionVariables.Set consults.
 
 func init() { register(extractC20) }
 
